@@ -641,6 +641,7 @@ class Suite:
             self.refused('layout obligations', ['C08', 'C02', 'C09'], str(e))
         try:
             hintlemmas.run(self.funcs, self.results)
+            hintlemmas.run_pack(self.funcs, self.results)
             self.run.functions.append('MIR hint_bit_unpack (three loops, one iteration each from an arbitrary state; K and omega symbolic)')
         except (e2.Refuse, KeyError, IndexError) as ex:
             self.results.append({'name': 'hint_bit_unpack loop lemmas', 'tags': ['C08', 'C02', 'C05', 'C13'], 'verdict': 'refused', 'detail': repr(ex)})
